@@ -9,10 +9,46 @@ def boolJ (b : Bool) : Json := Json.bool b
 
 def getI (a : Json) (k1 k2 : String) : P I := do pure ⟨← getRat a k1, ← getRat a k2⟩
 
+/-- A step of a plain-interval history: `{"op": "set_start"|…, "x": rat}` / `{"op":"round","n":int}` / `{"op":"inter","c":rat,"d":rat}`. -/
+def getOp (j : Json) : P Op := do
+  match (← getStr j "op") with
+  | "set_start" => pure (.setStart (← getRat j "x"))
+  | "set_end" => pure (.setEnd (← getRat j "x"))
+  | "add" => pure (.add (← getRat j "x"))
+  | "sub" => pure (.sub (← getRat j "x"))
+  | "mul" => pure (.mul (← getRat j "x"))
+  | "div" => pure (.div (← getRat j "x"))
+  | "round" => pure (.round (← getInt j "n"))
+  | "inter" => pure (.inter (← getI j "c" "d"))
+  | o => throw s!"C16: unknown history op {o}"
+
+def getOpA (j : Json) : P OpA := do
+  match (← getStr j "op") with
+  | "set_start" => pure (.setStart (← getRat j "x"))
+  | "set_end" => pure (.setEnd (← getRat j "x"))
+  | "add" => pure (.add (← getRat j "x"))
+  | "sub" => pure (.sub (← getRat j "x"))
+  | o => throw s!"C16: unknown angle history op {o}"
+
+/-- Python's `round` as a finite table `[[n, x, round(x, n)], …]` (a parameter of the model); identity off the table. -/
+def getRnd (a : Json) : P (Int → Rat → Rat) := do
+  let rows ← getList (fun r => do
+    match (← asArr r) with
+    | [n, x, y] => pure ((← asInt n), (← asRat x), (← asRat y))
+    | _ => throw "C16: rtab row") a "rtab"
+  pure fun n x => match rows.find? (fun r => r.1 == n && r.2.1 == x) with
+    | some r => r.2.2
+    | none => x
+
 /-- A plain-interval operation on the constructed interval `[a, b]` (construction itself is op `mk`). -/
 def plain (op : String) (a : Json) : P Json := do
   match op with
   | "mk" => pure <| resJ ivJ (mk (← getRat a "a") (← getRat a "b"))
+  | "prog" =>
+    let i ← getI a "a" "b"
+    let ops ← getList getOp a "steps"
+    let rnd ← getRnd a
+    pure <| Json.mkObj [("trace", Json.arr ((runOps rnd i ops).map (resJ ivJ)).toArray), ("final", ivJ (finalOps rnd i ops))]
   | _ =>
   let i ← getI a "a" "b"
   match op with
@@ -47,11 +83,20 @@ def angle (op : String) (a : Json) : P Json := do
   | "a_containsI" =>
     let ε ← getRat a "eps"
     pure <| okJ (boolJ (containsAngleI τ ε (← getI a "a" "b") (← getI a "c" "d")))
+  | "a_set_start" => pure <| resJ ivJ (setStartAngle τ (← getI a "a" "b") (← getRat a "x"))
+  | "a_set_end" => pure <| resJ ivJ (setEndAngle τ (← getI a "a" "b") (← getRat a "x"))
+  | "a_prog" =>
+    let i ← getI a "a" "b"
+    let ops ← getList getOpA a "steps"
+    pure <| Json.mkObj [("trace", Json.arr ((runOpsA τ i ops).map (resJ ivJ)).toArray), ("final", ivJ (finalOpsA τ i ops))]
+  | "make_valid_interval" =>
+    let p := makeValidInterval τ (← getRat a "s") (← getRat a "e")
+    pure <| okJ (Json.arr #[ratJ p.1, ratJ p.2])
   | "a_add" => pure <| resJ ivJ (addAngle τ (← getI a "a" "b") (← getRat a "x"))
   | "a_sub" => pure <| resJ ivJ (subAngle τ (← getI a "a" "b") (← getRat a "x"))
   | _ => throw s!"C16: unknown angle op {op}"
 
 def handle (op : String) (a : Json) : P Json :=
-  if op.startsWith "a_" || op == "mk_angle" || op == "make_valid" then angle op a else plain op a
+  if op.startsWith "a_" || op == "mk_angle" || op.startsWith "make_valid" then angle op a else plain op a
 
 end CR.Drv.C16
